@@ -85,4 +85,104 @@ theorem desymref_sound_partial (ops : List SOp) : symRun ops [] = forwarded ops 
 example : symRun [.update 0 5, .fetch 0, .update 0 7, .update 1 1, .fetch 0, .fetch 1] [] = some [5, 7, 1] := by decide
 example : forwarded [.update 0 5, .fetch 0, .update 0 7, .update 1 1, .fetch 0, .fetch 1] [] = some [5, 7, 1] := by decide
 
+/-! ## symbols used below a block (`desymref.py: get_nested_symbols`, nested regions of any depth) -/
+
+/-- `get_symbols(block)` = the symbols with a symref operation in the block itself (depth 0). -/
+theorem symtree_mem_direct_iff (s : Nat) (t : SymTree) : s ∈ t.direct ↔ t.occursAt s 0 = true := by
+  induction t with
+  | leaf => simp [SymTree.direct, SymTree.occursAt]
+  | sym x r ih =>
+    simp only [SymTree.direct, SymTree.occursAt, List.mem_cons, ih, Bool.or_eq_true, Bool.and_eq_true,
+      beq_iff_eq, true_and]
+    constructor
+    · rintro (h | h)
+      · exact Or.inl h.symm
+      · exact Or.inr h
+    · rintro (h | h)
+      · exact Or.inl h.symm
+      · exact Or.inr h
+  | op b r _ ih => simp [SymTree.direct, SymTree.occursAt, ih]
+
+/-- `region.walk()` meets a symbol iff a symref operation on it lies at some depth. -/
+theorem symtree_mem_all_iff (s : Nat) (t : SymTree) : s ∈ t.all ↔ ∃ d, t.occursAt s d = true := by
+  induction t with
+  | leaf => simp [SymTree.all, SymTree.occursAt]
+  | sym x r ih =>
+    simp only [SymTree.all, SymTree.occursAt, List.mem_cons, ih, Bool.or_eq_true, Bool.and_eq_true, beq_iff_eq]
+    constructor
+    · rintro (h | ⟨d, h⟩)
+      · exact ⟨0, Or.inl ⟨rfl, h.symm⟩⟩
+      · exact ⟨d, Or.inr h⟩
+    · rintro ⟨d, (⟨_, h⟩ | h)⟩
+      · exact Or.inl h.symm
+      · exact Or.inr ⟨d, h⟩
+  | op b r ihb ihr =>
+    simp only [SymTree.all, SymTree.occursAt, List.mem_append, ihb, ihr, Bool.or_eq_true]
+    constructor
+    · rintro (⟨d, h⟩ | ⟨d, h⟩)
+      · exact ⟨d + 1, Or.inl h⟩
+      · exact ⟨d, Or.inr h⟩
+    · rintro ⟨d, (h | h)⟩
+      · cases d with
+        | zero => simp at h
+        | succ d => exact Or.inl ⟨d, h⟩
+      · exact Or.inr ⟨d, h⟩
+
+/-- "symbols read or written inside nested regions": `get_nested_symbols(block)` contains a symbol iff
+a symref operation on it lies ANY number (≥ 1) of region levels below the block — not only in the
+blocks of the regions held by the block's own operations. -/
+theorem symtree_mem_nested_iff (s : Nat) (t : SymTree) : s ∈ t.nested ↔ ∃ d, t.occursAt s (d + 1) = true := by
+  induction t with
+  | leaf => simp [SymTree.nested, SymTree.occursAt]
+  | sym x r ih => simp [SymTree.nested, SymTree.occursAt, ih]
+  | op b r _ ihr =>
+    simp only [SymTree.nested, SymTree.occursAt, List.mem_append, symtree_mem_all_iff, ihr, Bool.or_eq_true]
+    constructor
+    · rintro (⟨d, h⟩ | ⟨d, h⟩)
+      · exact ⟨d, Or.inl h⟩
+      · exact ⟨d, Or.inr h⟩
+    · rintro ⟨d, (h | h)⟩
+      · exact Or.inl ⟨d, h⟩
+      · exact Or.inr ⟨d, h⟩
+
+/-- "symref elimination inside one block never touches a symbol a nested region still uses": a symbol
+the block forwards and erases (`prune_definitions` for declared, `prune_uses_without_definitions` for
+the others) has every one of its symref operations in the block itself — no operation at any depth
+below the block reads or writes it, so the straight-line statement `desymref_sound_partial` speaks
+about all accesses to it. -/
+theorem desymref_forward_scope (s : Nat) (t : SymTree) (h : s ∈ t.forwardable) :
+    t.occursAt s 0 = true ∧ ∀ d, t.occursAt s (d + 1) = false := by
+  simp only [SymTree.forwardable, List.mem_filter, Bool.not_eq_true', List.contains_eq_mem,
+    decide_eq_false_iff_not] at h
+  refine ⟨(symtree_mem_direct_iff s t).1 h.1, fun d => ?_⟩
+  cases hd : t.occursAt s (d + 1) with
+  | false => rfl
+  | true => exact absurd ((symtree_mem_nested_iff s t).2 ⟨d, hd⟩) h.2
+
+/-- `prune_definitions` accepts a block (does not raise) only if no declared symbol is touched at any
+depth below it. -/
+theorem desymref_accept_scope (declared : List Nat) (t : SymTree) (l : List Nat)
+    (h : t.pruneDecide declared = some l) : l = declared ∧ ∀ s ∈ declared, ∀ d, t.occursAt s (d + 1) = false := by
+  unfold SymTree.pruneDecide at h
+  split at h
+  · cases h
+  · rename_i hn
+    refine ⟨by cases h; rfl, fun s hs d => ?_⟩
+    cases hd : t.occursAt s (d + 1) with
+    | false => rfl
+    | true =>
+      exfalso
+      apply hn
+      simp only [List.any_eq_true, List.contains_eq_mem, decide_eq_true_eq]
+      exact ⟨s, hs, (symtree_mem_nested_iff s t).2 ⟨d, hd⟩⟩
+
+/-- looking only at the blocks directly inside the nested regions is not enough: a symbol written two
+region levels down is missed (then the enclosing block forwards a stale value). -/
+theorem nested_shallow_counterexample :
+    let t := SymTree.sym 0 (.op (.op (.sym 0 .leaf) .leaf) (.sym 0 .leaf))
+    t.occursAt 0 2 = true ∧ 0 ∉ t.nestedShallow ∧ 0 ∈ t.nested ∧ t.pruneDecide [0] = none := by
+  decide
+
+example : (SymTree.sym 0 (.op (.sym 1 .leaf) (.sym 2 .leaf))).forwardable = [0, 2] := by decide
+
 end Xdsl.C16
